@@ -62,3 +62,48 @@ package boltz
 //@   ensures[missing-entity-is-an-error] !entPresent(lcFS(collection), id) ==> result.Err != nil && dbSame()
 //@   ensures[the-entity's-link-bucket] entPresent(lcFS(collection), id) && result.Err == nil ==> result.Bucket != nil && ref(result.Bucket) == lcOwn(collection, tx, id)
 //@   ensures[no-entry-changes] plainSame()
+
+// ---- reference-counted links: the count lives as an int32 value under the typed id key ----
+//@ define rcHas(B, k) = str_len(bcell(B, k)) == 5 && tagOf(bcell(B, k)) == TypeInt32
+//@ define rcVal(B, k) = s32(le32val(untag(bcell(B, k))))
+//@ define rcCnt(B, k) = ite(rcHas(B, k), rcVal(B, k), 0)
+//@ spec wrapm32(v Int) Int = (ite (< v (- 2147483648)) (+ v 4294967296) v)
+//@ spec wrap32(v Int) Int = (ite (> v 2147483647) (- v 4294967296) v)
+// rcSame(): no plain cell of any bucket changes; rcOnly1(B, k): none except the named one
+//@ define rcSame() = forall(b, forallStr(k, bcell(b, k) == old(bcell(b, k)) && (sel(bktHas[b], k) && sel(bktSub[b], k) == 0) == (old(sel(bktHas[b], k)) && old(sel(bktSub[b], k)) == 0)))
+//@ define rcOnly1(B, k1) = forall(b, forallStr(k, !(b == B && k == k1) ==> bcell(b, k) == old(bcell(b, k)) && (sel(bktHas[b], k) && sel(bktSub[b], k) == 0) == (old(sel(bktHas[b], k)) && old(sel(bktSub[b], k)) == 0)))
+//@ define rcOnly2(B1, k1, B2, k2) = forall(b, forallStr(k, !(b == B1 && k == k1) && !(b == B2 && k == k2) ==> bcell(b, k) == old(bcell(b, k)) && (sel(bktHas[b], k) && sel(bktSub[b], k) == 0) == (old(sel(bktHas[b], k)) && old(sel(bktSub[b], k)) == 0)))
+//@ define rsStore(symbol) = symStoreOf(symbol.EntitySymbol)
+//@ define rsB(symbol, tx, id) = lkB(symbol.EntitySymbol, rsStore(symbol), tx, id)
+//@ immutable H.boltz.RefCountedLinkedSetSymbol.EntitySymbol.typ
+//@ immutable H.boltz.RefCountedLinkedSetSymbol.EntitySymbol.val
+//@ immutable H.boltz.rcLinkCollectionImpl.field.typ
+//@ immutable H.boltz.rcLinkCollectionImpl.field.val
+//@ immutable H.boltz.rcLinkCollectionImpl.otherField
+//@ define rcFS(c) = symStoreOf(c.field)
+//@ define rcOS(c) = rsStore(c.otherField)
+//@ define rcOwn(c, tx, id) = lkB(c.field, rcFS(c), tx, id)
+//@ define rcFar(c, tx, id) = rsB(c.otherField, tx, id)
+//@ func (*rcLinkCollectionImpl).getFieldBucket
+//@   props C05
+//@   nosafety
+//@   modifies *
+//@   ensures[a-bucket-or-an-error] result != nil && result.ErrorHolderImpl != nil
+//@   ensures[missing-entity-is-an-error] !entPresent(rcFS(collection), str(id)) ==> result.Err != nil && dbSame()
+//@   ensures[the-entity's-link-bucket] entPresent(rcFS(collection), str(id)) && result.Err == nil ==> result.Bucket != nil && ref(result.Bucket) == rcOwn(collection, tx, str(id))
+//@   ensures[no-count-changes] rcSame()
+// ---- wiring: a link collection is registered under its local symbol's name so that deletes reach it ----
+//@ func (*BaseStore).AddLinkCollection
+//@   props C05
+//@   nosafety
+//@   waive immutable wiring: link collections are registered while the stores are being set up, before any operation runs
+//@   modifies *
+//@   ensures[near-and-far-symbol] result != nil && istype(result, *linkCollectionImpl) && as(result, *linkCollectionImpl).field == local && as(result, *linkCollectionImpl).otherField != nil && as(result, *linkCollectionImpl).otherField.EntitySymbol == remote
+//@   ensures[registered-for-cleanup] has(store.links, esName(local)) && store.links[esName(local)] == result
+//@ func (*BaseStore).AddRefCountedLinkCollection
+//@   props C05
+//@   nosafety
+//@   waive immutable wiring: link collections are registered while the stores are being set up, before any operation runs
+//@   modifies *
+//@   ensures[near-and-far-symbol] result != nil && istype(result, *rcLinkCollectionImpl) && as(result, *rcLinkCollectionImpl).field == local && as(result, *rcLinkCollectionImpl).otherField != nil && as(result, *rcLinkCollectionImpl).otherField.EntitySymbol == remote
+//@   ensures[registered-for-cleanup] has(store.refCountedLinks, esName(local)) && store.refCountedLinks[esName(local)] == result
